@@ -110,7 +110,8 @@ def c19_r1(ctx):
     ctx.ob(tw, bool(fornode) and bad is None, "every term of the expansion is measured with distance() (no shortcut filter before it)",
            path=cfgmod.path_text(bad) if bad else None)
     lv = loops[0].target.id if len(loops) == 1 and isinstance(loops[0].target, ast.Name) else "?"
-    ctx.ob(tw, len(dcalls) == 1 and norm.deep_canon(dcalls[0], tw.node) == "distance(self.schema[fieldname].from_bytes(%s), text, limit=maxdist)" % lv,
+    ctx.ob(tw, len(dcalls) == 1 and norm.deep_canon(dcalls[0], tw.node) in (
+        "distance(self.schema[fieldname].from_bytes(%s), text, limit=maxdist)" % lv, "distance(self.schema[fieldname].from_bytes(%s), text, maxdist)" % lv),
            "distance(decoded term, text, limit=maxdist)", detail=str([norm.deep_canon(c, tw.node) for c in dcalls]))
     # multi-segment readers use the brute-force path, single segments the automaton
     mr = prog.cls("reading.MultiReader")
